@@ -115,6 +115,10 @@ def must(pattern, text, what, flags=re.S):
         # the same tokens laid out differently (line breaks, indentation, spaces around operators)
         m = re.search(pattern.replace(" ", r"\s*"), text, flags)
     if not m:
+        # ... or with no layout at all: white space removed from the source and from the pattern
+        # (rustfmt may break a method chain before any `.`)
+        m = re.search(re.sub(r"\\s[*+]| ", "", pattern), re.sub(r"\s+", "", text), flags)
+    if not m:
         raise TranslatorError(f"pattern for {what} not found")
     return m
 
@@ -284,10 +288,10 @@ def gen():
             line = line.strip()
             if not line:
                 continue
-            mm = re.fullmatch(r"(\d+) => Ok\(Self::(\w+)\),", line)
+            mm = re.fullmatch(r"([\w:]+) => Ok\(Self::(\w+)\),", line)
             if not mm:
                 raise TranslatorError(f"SampleBank::try_from arm {line!r}")
-            rows.append((int(mm.group(1)), sb.index(mm.group(2))))
+            rows.append((rust_int(mm.group(1)), sb.index(mm.group(2))))
         A("Definition sample_bank_of_int : list (Z * Z) := [" + "; ".join(f"({a}, {b})" for a, b in rows) + "].")
         for nm in ["NONE", "NORMAL", "WHISTLE", "FINISH", "CLAP"]:
             m = must(r"pub const " + nm + r": u8 = ([^;]+);", t, f"HitSoundType::{nm}")
@@ -311,15 +315,15 @@ def gen():
         t = src("section/hit_objects/decode.rs")
         m = must(r"const MAX_COORDINATE_VALUE: i32 = ([^;]+);", t, "MAX_COORDINATE_VALUE")
         A(f"Definition max_coordinate_value : Z := {rust_int(m.group(1))}.")
-        m = must(r"if repeat_count > (\d+) \{", t, "repeat cap")
+        m = must(r"if repeat_count > ([\w:]+) \{", t, "repeat cap")
         A(f"Definition repeat_cap : Z := {rust_int(m.group(1))}.")
         m = must(r"const CONTROL_POINT_LENIENCY: f64 = ([^;]+);", t, "CONTROL_POINT_LENIENCY")
         A(f"Definition control_point_leniency_dec : bool * Z * Z := {dec(m.group(1))}.")
-        m = must(r"GameMode::Osu \| GameMode::Catch => \{\s*\(-slider_velocity_as_beat_len\)\.clamp\(([^,]+), ([^)]+)\) / ([^\s]+)\s*\}", t, "bpm clamp osu/catch")
+        m = must(r"GameMode::Osu \| GameMode::Catch => \{\s*\(-slider_velocity_as_beat_len\)\.clamp\(([^,]+), ([^)]+)\) / (-?[\w.:]+)\s*\}", t, "bpm clamp osu/catch")
         A(f"Definition bpm_clamp_std : (bool*Z*Z) * (bool*Z*Z) * (bool*Z*Z) := ({dec(m.group(1))}, {dec(m.group(2))}, {dec(m.group(3))}).")
-        m = must(r"GameMode::Taiko \| GameMode::Mania => \{\s*\(-slider_velocity_as_beat_len\)\.clamp\(([^,]+), ([^)]+)\) / ([^\s]+)\s*\}", t, "bpm clamp taiko/mania")
+        m = must(r"GameMode::Taiko \| GameMode::Mania => \{\s*\(-slider_velocity_as_beat_len\)\.clamp\(([^,]+), ([^)]+)\) / (-?[\w.:]+)\s*\}", t, "bpm clamp taiko/mania")
         A(f"Definition bpm_clamp_tm : (bool*Z*Z) * (bool*Z*Z) * (bool*Z*Z) := ({dec(m.group(1))}, {dec(m.group(2))}, {dec(m.group(3))}).")
-        m = must(r"Pos::new\(([\d.]+) / ([\d.]+), ([\d.]+) / ([\d.]+)\)", t, "spinner centre")
+        m = must(r"Pos::new\((-?[\w.:]+) / (-?[\w.:]+), (-?[\w.:]+) / (-?[\w.:]+)\)", t, "spinner centre")
         A(f"Definition spinner_pos_dec : (bool*Z*Z) * (bool*Z*Z) * (bool*Z*Z) * (bool*Z*Z) := ({dec(m.group(1))}, {dec(m.group(2))}, {dec(m.group(3))}, {dec(m.group(4))}).")
 
     with blk("difficulty"):
@@ -329,7 +333,7 @@ def gen():
         m = must(r"slider_tick_rate = f64::parse\(value\)\?\.clamp\(([^,]+), ([^)]+)\);", t, "tick rate clamp")
         A(f"Definition tick_rate_clamp : (bool*Z*Z) * (bool*Z*Z) := ({dec(m.group(1))}, {dec(m.group(2))}).")
         m = must(r"impl Default for Difficulty \{.*?Self \{(.*?)\}", t, "Difficulty::default")
-        dd = dict(re.findall(r"(\w+): ([\d.]+),", m.group(1)))
+        dd = dict(re.findall(r"(\w+): (-?[\w.:]+),", m.group(1)))
         for k in ["hp_drain_rate", "circle_size", "overall_difficulty", "approach_rate", "slider_multiplier", "slider_tick_rate"]:
             if k not in dd:
                 raise TranslatorError(f"Difficulty default {k}")
@@ -339,11 +343,11 @@ def gen():
         t = src("section/general/decode.rs")
         m = must(r"impl Default for General \{.*?Self \{(.*?)\n        \}", t, "General::default")
         body = m.group(1)
-        mm = must(r"preview_time: (-?\d+),", body, "General default preview_time")
-        A(f"Definition default_preview_time : Z := {int(mm.group(1))}.")
-        mm = must(r"default_sample_volume: (-?\d+),", body, "General default sample volume")
-        A(f"Definition default_sample_volume : Z := {int(mm.group(1))}.")
-        mm = must(r"stack_leniency: ([\d.]+),", body, "General default stack leniency")
+        mm = must(r"preview_time: (-?[\w:]+),", body, "General default preview_time")
+        A(f"Definition default_preview_time : Z := {rust_int(mm.group(1))}.")
+        mm = must(r"default_sample_volume: (-?[\w:]+),", body, "General default sample volume")
+        A(f"Definition default_sample_volume : Z := {rust_int(mm.group(1))}.")
+        mm = must(r"stack_leniency: (-?[\w.:]+),", body, "General default stack leniency")
         A(f"Definition default_stack_leniency_dec : bool * Z * Z := {dec(mm.group(1))}.")
         mm = must(r"countdown: CountdownType::(\w+),", body, "General default countdown")
         A(f"Definition default_countdown : Z := {cd.index(mm.group(1))}.")
@@ -352,25 +356,25 @@ def gen():
         t = src("section/editor.rs")
         m = must(r"impl Default for Editor \{.*?Self \{(.*?)\n        \}", t, "Editor::default")
         body = m.group(1)
-        mm = must(r"distance_spacing: ([\d.]+),", body, "Editor default distance_spacing")
+        mm = must(r"distance_spacing: (-?[\w.:]+),", body, "Editor default distance_spacing")
         A(f"Definition default_distance_spacing_dec : bool * Z * Z := {dec(mm.group(1))}.")
-        mm = must(r"beat_divisor: (-?\d+),", body, "Editor default beat_divisor")
-        A(f"Definition default_beat_divisor : Z := {int(mm.group(1))}.")
-        mm = must(r"timeline_zoom: ([\d.]+),", body, "Editor default timeline_zoom")
+        mm = must(r"beat_divisor: (-?[\w:]+),", body, "Editor default beat_divisor")
+        A(f"Definition default_beat_divisor : Z := {rust_int(mm.group(1))}.")
+        mm = must(r"timeline_zoom: (-?[\w.:]+),", body, "Editor default timeline_zoom")
         A(f"Definition default_timeline_zoom_dec : bool * Z * Z := {dec(mm.group(1))}.")
 
     with blk("metadata"):
         t = src("section/metadata.rs")
         m = must(r"impl Default for Metadata \{.*?Self \{(.*?)\n        \}", t, "Metadata::default")
-        mm = must(r"beatmap_id: (-?\d+),", m.group(1), "Metadata default beatmap_id")
-        A(f"Definition default_beatmap_id : Z := {int(mm.group(1))}.")
+        mm = must(r"beatmap_id: (-?[\w:]+),", m.group(1), "Metadata default beatmap_id")
+        A(f"Definition default_beatmap_id : Z := {rust_int(mm.group(1))}.")
 
     with blk("timing_points_control_points_timing"):
         # ---- control points
         t = src("section/timing_points/control_points/timing.rs")
         m = must(r"beat_len: beat_len\.clamp\(([^,]+), ([^)]+)\),", t, "beat_len clamp")
         A(f"Definition beat_len_clamp : (bool*Z*Z) * (bool*Z*Z) := ({dec(m.group(1))}, {dec(m.group(2))}).")
-        m = must(r"pub const DEFAULT_BEAT_LEN: f64 = ([\d_.]+) / ([\d_.]+);", t, "DEFAULT_BEAT_LEN")
+        m = must(r"pub const DEFAULT_BEAT_LEN: f64 = (-?[\w.:]+) / (-?[\w.:]+);", t, "DEFAULT_BEAT_LEN")
         A(f"Definition default_beat_len_dec : (bool*Z*Z) * (bool*Z*Z) := ({dec(m.group(1))}, {dec(m.group(2))}).")
 
     with blk("timing_points_control_points_difficulty"):
@@ -380,8 +384,8 @@ def gen():
 
     with blk("timing_points_control_points_sample"):
         t = src("section/timing_points/control_points/sample.rs")
-        m = must(r"sample_volume: sample_volume\.clamp\((\d+), (\d+)\),", t, "sample volume clamp")
-        A(f"Definition sample_volume_clamp : Z * Z := ({int(m.group(1))}, {int(m.group(2))}).")
+        m = must(r"sample_volume: sample_volume\.clamp\(([\w:]+), ([\w:]+)\),", t, "sample volume clamp")
+        A(f"Definition sample_volume_clamp : Z * Z := ({rust_int(m.group(1))}, {rust_int(m.group(2))}).")
 
     with blk("timing_points_decode"):
         t = src("section/timing_points/decode.rs")
@@ -395,7 +399,7 @@ def gen():
         m = must(r"matches!\(state\.general\.mode, ((?:GameMode::\w+(?: \| )?)+)\) \{\s*effect\.scroll_speed =", t, "scroll speed modes")
         gm = enum_variants(src("section/general/mod.rs"), "GameMode")
         A("Definition tp_scroll_modes : list Z := [" + "; ".join(str(gm.index(v)) for v in re.findall(r"GameMode::(\w+)", m.group(1))) + "].")
-        m = must(r"let speed_multiplier = if beat_len < 0\.0 \{\s*([\d_.]+) / -beat_len\s*\} else \{\s*1\.0\s*\};", t, "speed multiplier")
+        m = must(r"let speed_multiplier = if beat_len < 0\.0 \{\s*(-?[\w.:]+) / -beat_len\s*\} else \{\s*1\.0\s*\};", t, "speed multiplier")
         A(f"Definition tp_speed_num_dec : bool * Z * Z := {dec(m.group(1))}.")
         must(r"pending_control_points_time: 0\.0,", t, "initial pending time 0.0")
         must(r"if \(time - self\.pending_control_points_time\)\.abs\(\) >= f64::EPSILON \{", t, "flush condition")
@@ -403,12 +407,12 @@ def gen():
         A(f"Definition tp_sig_skip_char : Z := {ord(m.group(1))}.")
         m = must(r"let timing_change = split\s*\.next\(\)\s*\.map_or\(true, \|next\| matches!\(next\.chars\(\)\.next\(\), Some\('(.)'\)\)\);", t, "timing_change prefix")
         A(f"Definition tp_timing_change_char : Z := {ord(m.group(1))}.")
-        m = must(r"let custom_sample_bank = split\.next\(\)\.map\(i32::parse\)\.transpose\(\)\?\.unwrap_or\((-?\d+)\);", t, "default custom sample bank")
-        A(f"Definition tp_default_custom_bank : Z := {int(m.group(1))}.")
+        m = must(r"let custom_sample_bank = split\.next\(\)\.map\(i32::parse\)\.transpose\(\)\?\.unwrap_or\((-?[\w:]+)\);", t, "default custom sample bank")
+        A(f"Definition tp_default_custom_bank : Z := {rust_int(m.group(1))}.")
         must(r"if sample_set == SampleBank::None \{\s*sample_set = SampleBank::Normal;", t, "bank None -> Normal")
         t2 = src("section/timing_points/control_points/timing.rs")
-        m = must(r"pub const fn new_simple_quadruple\(\) -> Self \{[^}]*?NonZeroU32::new_unchecked\((\d+)\)", t2, "TimeSignature::new_simple_quadruple")
-        A(f"Definition tp_default_signature : Z := {int(m.group(1))}.")
+        m = must(r"pub const fn new_simple_quadruple\(\) -> Self \{[^}]*?NonZeroU32::new_unchecked\(([\w:]+)\)", t2, "TimeSignature::new_simple_quadruple")
+        A(f"Definition tp_default_signature : Z := {rust_int(m.group(1))}.")
 
     with blk("hit_objects_slider_curve"):
         # ---- curves
@@ -419,9 +423,9 @@ def gen():
         A(f"Definition catmull_detail : Z := {rust_int(m.group(1))}.")
         m = must(r"const CIRCULAR_ARC_TOLERANCE: f32 = ([^;]+);", t, "CIRCULAR_ARC_TOLERANCE")
         A(f"Definition circular_arc_tolerance_dec : bool * Z * Z := {dec(m.group(1))}.")
-        m = must(r"if sub_points >= (\d+) \{", t, "arc sub-point cap")
-        A(f"Definition arc_subpoint_cap : Z := {int(m.group(1))}.")
-        m = must(r"if dist_from_start > ([\d.]+)", t, "catmull simplification distance")
+        m = must(r"if sub_points >= ([\w:]+) \{", t, "arc sub-point cap")
+        A(f"Definition arc_subpoint_cap : Z := {rust_int(m.group(1))}.")
+        m = must(r"if dist_from_start > (-?[\w.:]+)", t, "catmull simplification distance")
         A(f"Definition catmull_simplify_dist_dec : bool * Z * Z := {dec(m.group(1))}.")
         # calculate_length: a requested length is dropped only when it does not differ from the
         # calculated one (exact comparison; the model's keeps_natural mirrors this text)
@@ -439,7 +443,7 @@ def gen():
         A(f"Definition slider_max_len_dec : bool * Z * Z := {dec(m.group(1))}.")
         m = must(r"const TAIL_LENIENCY: f64 = ([^;]+);", t, "TAIL_LENIENCY")
         A(f"Definition tail_leniency_dec : bool * Z * Z := {dec(m.group(1))}.")
-        m = must(r"min_dist_from_end: velocity \* ([\d.]+),", t, "min_dist_from_end factor")
+        m = must(r"min_dist_from_end: velocity \* (-?[\w.:]+),", t, "min_dist_from_end factor")
         A(f"Definition min_dist_from_end_factor_dec : bool * Z * Z := {dec(m.group(1))}.")
 
     with blk("hit_objects_slider_path_type"):
@@ -465,14 +469,14 @@ def gen():
             line = line.strip()
             if not line:
                 continue
-            mm = re.fullmatch(r"\[((?:0x[0-9A-Fa-f]{2}, )+)\.\.\] => \(Self::(\w+), (\d+)\),", line)
+            mm = re.fullmatch(r"\[((?:0x[0-9A-Fa-f]{2}, )+)\.\.\] => \(Self::(\w+), ([\w:]+)\),", line)
             if mm:
                 bs = [int(x, 16) for x in re.findall(r"0x[0-9A-Fa-f]{2}", mm.group(1))]
-                rows.append((bs, encs.index(mm.group(2)), int(mm.group(3))))
+                rows.append((bs, encs.index(mm.group(2)), rust_int(mm.group(3))))
                 continue
-            mm = re.fullmatch(r"_ => \(Self::(\w+), (\d+)\),", line)
+            mm = re.fullmatch(r"_ => \(Self::(\w+), ([\w:]+)\),", line)
             if mm:
-                rows.append(([], encs.index(mm.group(1)), int(mm.group(2))))
+                rows.append(([], encs.index(mm.group(1)), rust_int(mm.group(2))))
                 continue
             raise TranslatorError(f"from_bom arm {line!r}")
         A("(* Encoding::from_bom: (prefix bytes, encoding index, bytes consumed), first match wins *)")
@@ -484,20 +488,20 @@ def gen():
         # read_bom: the repaired shape collects up to N bytes over several chunks
         # (`while head.len() < N`); the shape before the repair of D4 looked at one
         # chunk and dropped chunks shorter than N (`if len >= N || len == 0`).
-        m = re.search(r"while head\.len\(\) < (\d+) \{", t)
+        m = re.search(r"while head\.len\(\) < ([\w:]+) \{", t)
         if m:
-            n = int(m.group(1))
-            m2 = must(r"let len = available\.len\(\)\.min\((\d+) - head\.len\(\)\);", t, "read_bom bytes taken per chunk")
-            m3 = must(r"let mut head = Vec::with_capacity\((\d+)\);", t, "read_bom head buffer")
-            if int(m2.group(1)) != n or int(m3.group(1)) != n:
+            n = rust_int(m.group(1))
+            m2 = must(r"let len = available\.len\(\)\.min\(([\w:]+) - head\.len\(\)\);", t, "read_bom bytes taken per chunk")
+            m3 = must(r"let mut head = Vec::with_capacity\(([\w:]+)\);", t, "read_bom head buffer")
+            if rust_int(m2.group(1)) != n or rust_int(m3.group(1)) != n:
                 raise TranslatorError("read_bom: the three occurrences of the BOM length disagree")
             must(r"inner: Cursor::new\(head\)\.chain\(inner\),", t, "Decoder::new chains the collected head before the reader")
             A("(* read_bom collects up to this many bytes (over several chunks) before from_bom *)")
             A(f"Definition read_bom_min_len : Z := {n}.")
             A("Definition read_bom_accumulates : bool := true.")
         else:
-            m = must(r"if len >= (\d+) \|\| len == 0 \{", t, "read_bom minimum chunk")
-            A(f"Definition read_bom_min_len : Z := {int(m.group(1))}.")
+            m = must(r"if len >= ([\w:]+) \|\| len == 0 \{", t, "read_bom minimum chunk")
+            A(f"Definition read_bom_min_len : Z := {rust_int(m.group(1))}.")
             A("Definition read_bom_accumulates : bool := false.")
         # read_line: since the repair of D5 a byte 0x0A ends a UTF-16 line only as a code unit of its
         # own (the loop around read_until); before, the first byte 0x0A ended the line.
@@ -521,15 +525,15 @@ def gen():
 
     with blk("colors_mod"):
         t = src("section/colors/mod.rs")
-        m = must(r"Ok\(Self::new\(r\.parse\(\)\?, g\.parse\(\)\?, b\.parse\(\)\?, (\d+)\)\)", t, "Color::from_str alpha")
-        A(f"Definition color_default_alpha : Z := {int(m.group(1))}.")
+        m = must(r"Ok\(Self::new\(r\.parse\(\)\?, g\.parse\(\)\?, b\.parse\(\)\?, ([\w:]+)\)\)", t, "Color::from_str alpha")
+        A(f"Definition color_default_alpha : Z := {rust_int(m.group(1))}.")
 
     with blk("general_decode_2"):
         t = src("section/general/decode.rs")
-        flags = re.findall(r"state\.(\w+) = i32::parse\(value\)\? == (\d+);?", t)
+        flags = re.findall(r"state\.(\w+) = i32::parse\(value\)\? == ([\w:]+);?", t)
         if len(flags) != 5 or len({v for _, v in flags}) != 1:
             raise TranslatorError(f"General flag conversions not recognised: {flags!r}")
-        A(f"Definition flag_true_value : Z := {int(flags[0][1])}.")
+        A(f"Definition flag_true_value : Z := {rust_int(flags[0][1])}.")
         A("Definition general_flag_fields : list string := [" + "; ".join(coq_str(f) for f, _ in flags) + "].")
 
     return "\n".join(L) + "\n"
